@@ -361,7 +361,7 @@ fn bool_of(s: &Sexp) -> Option<bool> {
 pub fn run(cfg: &Cfg) -> Report {
   let mut rep = Report::new(
     "C16",
-    "pairs (a, b) of FEEL types: exhaustive over the one-constructor-layer universe (list, range, context 0..2 entries, function 0..2 parameters over the component types), plus random and perturbed types to depth 4; triples for transitivity; (target type, value) pairs for coercion. A case is non-trivial when at least one of the two types is compound (pairs) or the value's type does not simply equal the target (coercion); distinct by rendered text.",
+    "pairs (a, b) of FEEL types: exhaustive over the one-constructor-layer universe (list, range, context 0..2 entries, function 0..2 parameters over the component types), plus random and perturbed types to depth 4; triples for transitivity; (target type, value) pairs for coercion; function values with two and three typed parameters of different types (invocation positional / named / through a bound name, wrong numbers of arguments), sort with an ordering function whose two parameters have different types, instance of function and other types. A case is non-trivial when at least one of the two types is compound (pairs) or the value's type does not simply equal the target (coercion); distinct by rendered text.",
   );
   let mut model = Model::start(&cfg.driver);
   let mut rng = Rng::new(cfg.seed);
@@ -713,6 +713,418 @@ pub fn run(cfg: &Cfg) -> Report {
       }
     }
   }
+  // ---------------------------------------------------------------- function values with typed parameters
+  typed_functions(&mut rep, &mut model, &mut rng, thorough);
   rep.model_requests = model.requests;
   rep
+}
+
+// ------------------------------------------------------------------------------------------------
+// Function values whose parameters have declared types that differ from each other and from the types of
+// the arguments: where coercion is applied (`eval_function_positional` / `eval_function_named`, the comparator of
+// `sort`) every argument is coerced to the type of ITS OWN parameter.  The expectation is the specification's
+// `coerce T v` (Lean `ValOps.coerced`, requests `(c16 bind …)` / `(c16 coerce …)`), never the implementation's.
+
+/// type texts of parameters (kept when `function (x: T) x` parses to a parameter of that type)
+const PARAM_TYPES: &[&str] = &[
+  "number",
+  "string",
+  "boolean",
+  "Any",
+  "Null",
+  "date",
+  "list<number>",
+  "list<Any>",
+  "list<string>",
+  "list<list<number>>",
+  "context<a: number>",
+  "range<number>",
+  "function<number>->number",
+  "list<context<a: number>>",
+];
+
+/// argument texts
+const ARG_VALUES: &[&str] = &[
+  "1", "\"a\"", "true", "null", "[1]", "[[1]]", "[[[1]]]", "[\"a\"]", "[1, 2]", "[]", "[[]]", "[null]", "{a: 1}", "[{a: 1}]", "{a: \"x\"}", "[1..2]", "[[1..2]]", "[1, \"a\"]", "[[1], [2]]", "date(\"2021-02-03\")",
+  "[date(\"2021-02-03\")]", "[true]",
+];
+
+/// the value the specification's tag stands for
+fn by_tag(tag: &str, v: &Value) -> Value {
+  match tag {
+    "same" => v.clone(),
+    "wrap" => Value::List(Values::new(vec![v.clone()])),
+    "unwrap" => match v {
+      Value::List(xs) if xs.len() == 1 => xs.as_vec()[0].clone(),
+      _ => Value::Irrelevant,
+    },
+    _ => Value::Null(None),
+  }
+}
+
+/// the expression that reads a number out of a parameter of the given type (for ordering functions)
+fn key_of(ty: &str, var: &str) -> String {
+  match ty {
+    "list<number>" | "list<Any>" => format!("{}[1]", var),
+    "list<list<number>>" => format!("{}[1][1]", var),
+    "string" | "list<string>" => format!("string length(string({}))", var),
+    "context<a: number>" => format!("{}.a", var),
+    "list<context<a: number>>" => format!("{}[1].a", var),
+    _ => var.to_string(),
+  }
+}
+
+fn typed_functions(rep: &mut Report, model: &mut Model, rng: &mut Rng, thorough: bool) {
+  // the types as the parser reads them
+  let mut types: Vec<(&'static str, FeelType)> = vec![];
+  for t in PARAM_TYPES {
+    match eval_feel(&format!("function (x: {}) x", t)) {
+      Some(Value::FunctionDefinition(ps, _, _)) if ps.len() == 1 => types.push((*t, ps[0].1.clone())),
+      _ => rep.hit("typed-functions:type cannot be written"),
+    }
+  }
+  let mut args: Vec<(&'static str, Value, Sexp)> = vec![];
+  for a in ARG_VALUES {
+    if let Some(v) = eval_feel(a) {
+      if let Some(sk) = value_skeleton(&v) {
+        args.push((*a, v, sk));
+      }
+    }
+  }
+  rep.extra.insert("typed_function_parameter_types".into(), json!(types.len()));
+
+  // ---------------------------------------------------------------- (a) invocation: two (and three) typed parameters
+  struct Inv {
+    texts: Vec<(&'static str, String)>,
+    tys: Vec<usize>,
+    vals: Vec<usize>,
+  }
+  let mut invs: Vec<Inv> = vec![];
+  let mut reqs: Vec<String> = vec![];
+  for (i1, (t1, _)) in types.iter().enumerate() {
+    for (i2, (t2, _)) in types.iter().enumerate() {
+      let n = if thorough { 40 } else { 10 };
+      for k in 0..n {
+        // the first pairs give each parameter an argument the OTHER parameter's type would treat differently
+        let (a1, a2) = (rng.below(args.len() as u64) as usize, rng.below(args.len() as u64) as usize);
+        let (a1, a2) = if k == 0 { (a1, a1) } else { (a1, a2) };
+        let f = format!("function(x: {}, y: {}) [x, y]", t1, t2);
+        let texts = vec![
+          ("positional", format!("({})({}, {})", f, args[a1].0, args[a2].0)),
+          ("named, in the other order", format!("({})(y: {}, x: {})", f, args[a2].0, args[a1].0)),
+          ("bound to a name", format!("{{f: {}, r: f({}, {})}}.r", f, args[a1].0, args[a2].0)),
+        ];
+        reqs.push(format!("(c16 bind ({} {}) ({} {}))", type_sexp(&types[i1].1), type_sexp(&types[i2].1), args[a1].2, args[a2].2));
+        invs.push(Inv { texts, tys: vec![i1, i2], vals: vec![a1, a2] });
+      }
+      // the wrong number of arguments: null whatever the types are
+      if i1 <= i2 && rng.chance(1, 3) {
+        let a1 = rng.below(args.len() as u64) as usize;
+        let f = format!("function(x: {}, y: {}) [x, y]", t1, t2);
+        reqs.push(format!("(c16 bind ({} {}) ({}))", type_sexp(&types[i1].1), type_sexp(&types[i2].1), args[a1].2));
+        invs.push(Inv { texts: vec![("positional, one argument for two parameters", format!("({})({})", f, args[a1].0))], tys: vec![i1, i2], vals: vec![a1] });
+        reqs.push(format!("(c16 bind ({} {}) ({} {} {}))", type_sexp(&types[i1].1), type_sexp(&types[i2].1), args[a1].2, args[a1].2, args[a1].2));
+        invs.push(Inv { texts: vec![("positional, three arguments for two parameters", format!("({})({}, {}, {})", f, args[a1].0, args[a1].0, args[a1].0))], tys: vec![i1, i2], vals: vec![a1, a1, a1] });
+      }
+    }
+  }
+  // three parameters of three types
+  for _ in 0..(if thorough { 2000 } else { 300 }) {
+    let ts: Vec<usize> = (0..3).map(|_| rng.below(types.len() as u64) as usize).collect();
+    let vs: Vec<usize> = (0..3).map(|_| rng.below(args.len() as u64) as usize).collect();
+    let f = format!("function(x: {}, y: {}, z: {}) [x, y, z]", types[ts[0]].0, types[ts[1]].0, types[ts[2]].0);
+    let texts = vec![
+      ("positional, three parameters", format!("({})({}, {}, {})", f, args[vs[0]].0, args[vs[1]].0, args[vs[2]].0)),
+      ("named, three parameters", format!("({})(z: {}, x: {}, y: {})", f, args[vs[2]].0, args[vs[0]].0, args[vs[1]].0)),
+    ];
+    reqs.push(format!(
+      "(c16 bind ({}) ({}))",
+      ts.iter().map(|i| type_sexp(&types[*i].1).to_string()).collect::<Vec<_>>().join(" "),
+      vs.iter().map(|i| args[*i].2.to_string()).collect::<Vec<_>>().join(" ")
+    ));
+    invs.push(Inv { texts, tys: ts, vals: vs });
+  }
+  let answers = model.ask_batch(&reqs);
+  for (inv, ans) in invs.iter().zip(answers.iter()) {
+    let parsed = Sexp::parse(ans);
+    let l = parsed.as_ref().and_then(|s| s.as_list());
+    let expected: Value = match l.and_then(|l| l.first()).and_then(|h| h.as_atom()) {
+      Some("none") => Value::Null(None),
+      Some("some") => {
+        let tags: Vec<String> = l.unwrap().iter().skip(1).filter_map(|x| x.as_atom().map(|a| a.to_string())).collect();
+        if tags.len() != inv.vals.len() {
+          rep.disagree(Kind::ImplVsModel, "typed-functions", "driver-error", &inv.texts[0].1, "", ans);
+          continue;
+        }
+        Value::List(Values::new(tags.iter().zip(inv.vals.iter()).map(|(t, v)| by_tag(t, &args[*v].1)).collect()))
+      }
+      _ => {
+        rep.disagree(Kind::ImplVsModel, "typed-functions", "driver-error", &inv.texts[0].1, "", ans);
+        continue;
+      }
+    };
+    let different_types = inv.tys.windows(2).any(|w| w[0] != w[1]);
+    for (form, text) in &inv.texts {
+      rep.case(&format!("typed-function|{}", text), different_types);
+      rep.hit(&format!("typed-function:{}", form));
+      let spec_txt = format!("{} (the specification binds every parameter to the coercion of its own argument to its own type: {})", text, expected);
+      match eval_feel(text) {
+        None => rep.disagree(Kind::ImplVsSpec, "typed_function_invocation", &format!("invocation of a function with several typed parameters fails to evaluate ({})", form), &spec_txt, "error or panic", &expected.to_string()),
+        Some(g) => {
+          if let Value::List(items) = &g {
+            for (item, ti) in items.as_vec().iter().zip(inv.tys.iter()) {
+              if !matches!(item, Value::Null(_)) && !item.type_of().is_conformant(&types[*ti].1) {
+                rep.disagree(
+                  Kind::ImplVsSpec,
+                  "typed_function_invocation",
+                  &format!("a typed parameter of a function with several parameters receives a value that neither conforms to its type nor is null ({})", form),
+                  &spec_txt,
+                  &g.to_string(),
+                  "conforming or null",
+                );
+              }
+            }
+          }
+          if !same_value(&g, &expected) {
+            rep.disagree(
+              Kind::ImplVsSpec,
+              "typed_function_invocation",
+              &format!("a parameter does not receive the coercion of its argument to its own type (function with several typed parameters; {})", form),
+              &spec_txt,
+              &g.to_string(),
+              &expected.to_string(),
+            );
+          }
+        }
+      }
+    }
+  }
+
+  // ---------------------------------------------------------------- (b) sort: the ordering function's two parameters
+  let item_lists = [
+    "[3, 1, 2]",
+    "[[3], [1], [2]]",
+    "[[[3]], [[1]], [[2]]]",
+    "[3, [1], [[2]]]",
+    "[[2], 1, [3], 1]",
+    "[\"ccc\", \"a\", \"bb\"]",
+    "[[\"ccc\"], \"a\", [\"bb\"]]",
+    "[2, \"a\", 1]",
+    "[]",
+    "[[5]]",
+    "[null, 2, 1]",
+    "[[1, 2], [0]]",
+    "[{a: 2}, {a: 1}]",
+    "[[{a: 2}], {a: 1}, [{a: 0}]]",
+    "[2, 1]",
+  ];
+  let scope_xy = {
+    let mut ctx = FeelContext::default();
+    ctx.set_entry(&name("x"), Value::Null(None));
+    ctx.set_entry(&name("y"), Value::Null(None));
+    let s: Scope = ctx.into();
+    s
+  };
+  struct SortCase {
+    text: String,
+    body: String,
+    tys: (usize, usize),
+    items: Vec<Value>,
+    first_req: usize,
+  }
+  let mut sorts: Vec<SortCase> = vec![];
+  let mut sreqs: Vec<String> = vec![];
+  for (i1, (t1, ty1)) in types.iter().enumerate() {
+    for (i2, (t2, ty2)) in types.iter().enumerate() {
+      for l in item_lists {
+        if !thorough && i1 == i2 && !rng.chance(1, 3) {
+          continue;
+        }
+        let items = match eval_feel(l) {
+          Some(Value::List(xs)) => xs.as_vec().clone(),
+          _ => continue,
+        };
+        let sks: Option<Vec<Sexp>> = items.iter().map(value_skeleton).collect();
+        let sks = match sks {
+          Some(s) => s,
+          None => continue,
+        };
+        // ascending and descending by the number each parameter carries; now and then a body that only asks
+        // which of the two is null
+        let mut bodies = vec![format!("{} < {}", key_of(t1, "x"), key_of(t2, "y")), format!("{} > {}", key_of(t1, "x"), key_of(t2, "y"))];
+        if rng.chance(1, 3) {
+          bodies.push((*rng.pick(&["x != null and y = null", "y != null and x = null"])).to_string());
+        }
+        let first_req = sreqs.len();
+        for sk in &sks {
+          sreqs.push(format!("(c16 coerce {} {})", type_sexp(ty1), sk));
+          sreqs.push(format!("(c16 coerce {} {})", type_sexp(ty2), sk));
+        }
+        for body in bodies {
+          sorts.push(SortCase { text: format!("sort({}, function(x: {}, y: {}) {})", l, t1, t2, body), body, tys: (i1, i2), items: items.clone(), first_req });
+        }
+      }
+    }
+  }
+  let sanswers = model.ask_batch(&sreqs);
+  let tag_of = |ans: &String| -> String { Sexp::parse(ans).as_ref().and_then(|s| s.as_list()).and_then(|l| l.get(1).and_then(|x| x.as_atom()).map(|x| x.to_string())).unwrap_or_default() };
+  let mut prepared: std::collections::HashMap<String, Option<dmntk_feel::Evaluator>> = std::collections::HashMap::new();
+  for sc in &sorts {
+    let n = sc.items.len();
+    let xs: Vec<Value> = (0..n).map(|i| by_tag(&tag_of(&sanswers[sc.first_req + 2 * i]), &sc.items[i])).collect();
+    let ys: Vec<Value> = (0..n).map(|i| by_tag(&tag_of(&sanswers[sc.first_req + 2 * i + 1]), &sc.items[i])).collect();
+    let ev = prepared.entry(sc.body.clone()).or_insert_with(|| {
+      dmntk_feel_parser::parse_expression(&scope_xy, &sc.body, false).ok().and_then(|node| dmntk_feel_evaluator::prepare(&node).ok())
+    });
+    let ev = match ev {
+      Some(e) => e,
+      None => {
+        rep.hit("typed-sort:body does not build");
+        continue;
+      }
+    };
+    // the relation of the specification: the body over (item i coerced to the type of x, item j coerced to the type of y)
+    let mut r = vec![vec![false; n]; n];
+    let mut failed = false;
+    for i in 0..n {
+      for j in 0..n {
+        let mut ctx = FeelContext::default();
+        ctx.set_entry(&name("x"), xs[i].clone());
+        ctx.set_entry(&name("y"), ys[j].clone());
+        let s: Scope = ctx.into();
+        match crate::util::guarded(|| ev(&s)) {
+          Ok(v) => r[i][j] = matches!(v, Value::Boolean(true)),
+          Err(_) => failed = true,
+        }
+      }
+    }
+    if failed {
+      continue;
+    }
+    // a strict weak order on the items? (then there is exactly one stable arrangement: C08 `stable_sort_unique`)
+    let inc = |i: usize, j: usize| !r[i][j] && !r[j][i];
+    let mut swo = true;
+    for i in 0..n {
+      if r[i][i] {
+        swo = false;
+      }
+      for j in 0..n {
+        if r[i][j] && r[j][i] {
+          swo = false;
+        }
+        for k in 0..n {
+          if (r[i][j] && r[j][k] && !r[i][k]) || (inc(i, j) && inc(j, k) && !inc(i, k)) {
+            swo = false;
+          }
+        }
+      }
+    }
+    let different_types = sc.tys.0 != sc.tys.1;
+    rep.case(&format!("typed-sort|{}", sc.text), different_types);
+    if !swo {
+      rep.hit("typed-sort:not a strict weak order");
+      continue;
+    }
+    let mut order: Vec<usize> = vec![];
+    for i in 0..n {
+      let mut k = order.len();
+      while k > 0 && r[i][order[k - 1]] {
+        k -= 1;
+      }
+      order.insert(k, i);
+    }
+    let moved = order.iter().enumerate().any(|(a, b)| a != *b);
+    rep.hit(if moved { "typed-sort:judged, order changes" } else { "typed-sort:judged, order stays" });
+    let expected = Value::List(Values::new(order.iter().map(|i| sc.items[*i].clone()).collect()));
+    match eval_feel(&sc.text) {
+      None => rep.disagree(Kind::ImplVsSpec, "typed_sort", "sort with a typed ordering function fails to evaluate", &sc.text, "error or panic", &expected.to_string()),
+      Some(g) => {
+        if !same_value(&g, &expected) {
+          rep.disagree(
+            Kind::ImplVsSpec,
+            "typed_sort",
+            "sort does not order the items by the ordering function applied to each item coerced to the type of its own parameter",
+            &format!("{} (x of item i: {}; y of item j: {})", sc.text, Value::List(Values::new(xs.clone())), Value::List(Values::new(ys.clone()))),
+            &g.to_string(),
+            &expected.to_string(),
+          );
+        }
+      }
+    }
+  }
+
+  // ---------------------------------------------------------------- (c) `instance of` a function type
+  let mut ireqs: Vec<String> = vec![];
+  let mut icases: Vec<(String, Value, FeelType)> = vec![];
+  let result_types = ["Any", "number"];
+  for (t1, _) in &types {
+    for (t2, _) in &types {
+      let f = format!("function(x: {}, y: {}) x", t1, t2);
+      let fv = match eval_feel(&f) {
+        Some(v @ Value::FunctionDefinition(..)) => v,
+        _ => continue,
+      };
+      let mut targets: Vec<String> = vec![
+        format!("function<{}, {}> -> Any", t1, t2),
+        format!("function<{}, {}> -> Any", t2, t1),
+        format!("function<Any, Any> -> Any"),
+        format!("function<{}> -> Any", t1),
+        format!("function<{}, {}, {}> -> Any", t1, t2, t1),
+        "Any".to_string(),
+      ];
+      for _ in 0..(if thorough { 8 } else { 2 }) {
+        targets.push(format!("function<{}, {}> -> {}", rng.pick(&types).0, rng.pick(&types).0, rng.pick(&result_types)));
+      }
+      for target in targets {
+        // the type as the parser reads it: through a parameter declaration
+        let ty = match eval_feel(&format!("function (p: {}) p", target)) {
+          Some(Value::FunctionDefinition(ps, _, _)) if ps.len() == 1 => ps[0].1.clone(),
+          _ => {
+            rep.hit("instance-of:type cannot be written");
+            continue;
+          }
+        };
+        if let Some(sk) = value_skeleton(&fv) {
+          ireqs.push(format!("(c16 instanceof {} {})", sk, type_sexp(&ty)));
+          icases.push((format!("({}) instance of {}", f, target), fv.clone(), ty));
+        }
+      }
+    }
+  }
+  // other values against the types (lists, contexts, ranges, simple values, null)
+  for (a, v, sk) in &args {
+    for (t, ty) in &types {
+      ireqs.push(format!("(c16 instanceof {} {})", sk, type_sexp(ty)));
+      icases.push((format!("{} instance of {}", a, t), v.clone(), ty.clone()));
+    }
+  }
+  let ianswers = model.ask_batch(&ireqs);
+  for ((text, v, ty), ans) in icases.iter().zip(ianswers.iter()) {
+    rep.case(&format!("instance-of|{}", text), true);
+    let got = eval_feel(text);
+    let parsed = Sexp::parse(ans);
+    let l = parsed.as_ref().and_then(|s| s.as_list());
+    let (m_inst, _m_conf) = match l.map(|l| (l.first().and_then(bool_of), l.get(1).and_then(bool_of))) {
+      Some((Some(a), Some(b))) => (a, b),
+      _ => {
+        rep.disagree(Kind::ImplVsModel, "instance_of", "driver-error", text, "", ans);
+        continue;
+      }
+    };
+    let g = match got {
+      Some(Value::Boolean(b)) => b,
+      other => {
+        rep.disagree(Kind::ImplVsModel, "instance_of", "instance of does not give a boolean", text, &format!("{:?}", other.map(|x| x.to_string())), &m_inst.to_string());
+        continue;
+      }
+    };
+    rep.hit(&format!("instance-of:{}", g));
+    if g != m_inst {
+      rep.disagree(Kind::ImplVsModel, "instance_of", "instance of differs from the model", text, &g.to_string(), &m_inst.to_string());
+    }
+    // on the implementation alone: a value is never an instance of a type its own type does not conform to
+    if g && !v.type_of().is_conformant(ty) {
+      rep.disagree(Kind::ImplVsSpec, "instance_of_conforms", "a value is an instance of a type to which its type does not conform", text, "true", "false");
+    }
+  }
 }
